@@ -118,6 +118,8 @@ def judge(module, cfg_text, traces, workers=None, timeout=3600, env=None, heap="
         part = traces[lo:lo + chunk]
         acc, rej = _judge_once(module, cfg_text, part, workers, timeout, env, heap, tag, stats)
         missing = set(range(len(part))) - acc
+        if len(part) > 3 and len(missing) == len(part) and not rej:
+            raise TLCFailure("trace judge %s explained none of %d traces:\n%s" % (module, len(part), stats.get("last_out", "")))
         if missing:
             # interleaved output or an evaluation error: re-judge the unexplained traces one worker, one at a time
             for i in sorted(missing):
